@@ -276,6 +276,21 @@ func c13CountFloats(v *pgVal) int {
 }
 
 func genC13Proto(r *rng, n int) {
+	// widened classes (c13_wide.go): payload sizes around the varint-width boundaries of length prefixes, long strings
+	thorough := n >= 5000
+	nSz, nStr := 16, 10
+	if thorough {
+		nSz, nStr = 300, 40
+	}
+	m1, h1 := genC13ProtoSizes(r.fork(), nSz, thorough)
+	if h1 {
+		c13Stop("a protobuf conversion of the size sweep")
+	}
+	m2, h2 := genC13ProtoStrings(r.fork(), nStr, thorough)
+	if h2 {
+		c13Stop("a protobuf conversion of the long-string class")
+	}
+	n -= m1 + m2
 	optsPool := []pgOpts{{MaxMsgs: 4, MaxFields: 8, MaxDepth: 3}, {MaxMsgs: 3, MaxFields: 6, MaxDepth: 4}, {MaxMsgs: 5, MaxFields: 10, MaxDepth: 2}, {MaxMsgs: 2, MaxFields: 5, MaxDepth: 5}}
 	made, compileErr, encodeErr, overrun, unpackedForm, tooHeavy := 0, 0, 0, 0, 0, 0
 	for made < n {
@@ -302,6 +317,17 @@ func genC13Proto(r *rng, n int) {
 		}
 		sf := c08SchemaFields(s, unpacked)
 		per := 4 + r.intn(8)
+		batchMode := r.chance(35) // retention mode: each leg for the whole batch (DoInto, separate buffers), results read afterwards
+		var batch [][]byte
+		bd1, bd2 := r.chance(25), r.chance(25)
+		flush := func() {
+			if len(batch) > 0 {
+				if c13ProtoBatch(r, c.Dyn, sf, batch, bd1, bd2, true) {
+					c13Stop("a protobuf conversion")
+				}
+				batch = nil
+			}
+		}
 		for i := 0; i < per && made < n; i++ {
 			v := genProtoValue(r.fork(), c, s.Root, 0)
 			c08Mutate(r, v, []int{0, 10, 25, 40}[r.intn(4)])
@@ -337,6 +363,14 @@ func genC13Proto(r *rng, n int) {
 					unpackedForm++
 				}
 			}
+			if batchMode {
+				batch = append(batch, b)
+				made++
+				if len(batch) >= 2+r.intn(4) {
+					flush()
+				}
+				continue
+			}
 			if c13ProtoOne(r, c.Dyn, sf, b, r.chance(25), r.chance(25)) {
 				out.w.Flush()
 				fmt.Fprintf(os.Stderr, "C13: a protobuf conversion did not answer within 2 s; case written, stopping\n")
@@ -344,6 +378,7 @@ func genC13Proto(r *rng, n int) {
 			}
 			made++
 		}
+		flush()
 	}
 	fmt.Fprintf(os.Stderr, "C13 proto: messages=%d compileErr=%d encodeErr=%d overrunShapes=%d unpackedWireForm=%d skippedHeavy=%d\n", made, compileErr, encodeErr, overrun, unpackedForm, tooHeavy)
 }
